@@ -217,6 +217,9 @@ fn layer2(rng: &mut Rng, r: &mut Report, histories: u64, steps: u64) {
         let mut trace = vec![];
         let mut since_restart_pay = 0u64;
         let mut since_restart_fee = 0u64;
+        // (hash, amount, ever approved) / (key, invoice, amount, ever approved) of the requests made so far
+        let mut asked_keysends: Vec<([u8; 32], u64, bool)> = vec![];
+        let mut asked_invoices: Vec<(u64, Invoice, u64, bool)> = vec![];
         for s in 0..steps {
             let n = h * 1_000_000 + s;
             world.advance_time(gen_step(rng, pb.min(fb), 4));
@@ -225,11 +228,30 @@ fn layer2(rng: &mut Rng, r: &mut Report, histories: u64, steps: u64) {
             r.eval(1);
             match op {
                 0 => {
-                    let a = gen_amount(rng, pay_limit).min(u64::MAX / 2);
+                    let mut a = gen_amount(rng, pay_limit).min(u64::MAX / 2);
                     let mut hash = [0u8; 32];
                     hash[..8].copy_from_slice(&n.to_le_bytes());
+                    // one request in four repeats an earlier one (same payee, hash and amount): a node retries
+                    let mut repeat_of_approved = false;
+                    if !asked_keysends.is_empty() && rng.chance(1, 4) {
+                        let back = 1 + rng.usize(asked_keysends.len().min(4));
+                        let (h0, a0, ok0): ([u8; 32], u64, bool) = asked_keysends[asked_keysends.len() - back];
+                        hash = h0;
+                        a = a0;
+                        repeat_of_approved = ok0;
+                        r.count(if ok0 { "layer2.keysend.repeat_of_approved" } else { "layer2.keysend.repeat_of_refused" });
+                    }
                     let res = report::catch(|| world.node.add_keysend(payee, PaymentHash(hash), a));
+                    if let Ok(Ok(ok)) = &res {
+                        match asked_keysends.iter_mut().find(|x| x.0 == hash) {
+                            Some(x) => x.2 = x.2 || *ok,
+                            None => asked_keysends.push((hash, a, *ok)),
+                        }
+                    }
                     match res {
+                        // an approval repeated for a payment that was already approved (and counted then) is not a
+                        // new amount; everything else that is answered "approved" is
+                        Ok(Ok(true)) if repeat_of_approved => r.count("layer2.keysend.repeat_confirmed"),
                         Ok(Ok(true)) => {
                             r.count("layer2.keysend.accepted");
                             since_restart_pay += 1;
@@ -251,10 +273,29 @@ fn layer2(rng: &mut Rng, r: &mut Report, histories: u64, steps: u64) {
                 }
                 1 => {
                     let a = gen_amount(rng, pay_limit).min(2_000_000_000_000_000); // bolt11 amount encodable
-                    let a = a.max(1);
-                    let inv = make_invoice(now, n, a);
+                    let mut a = a.max(1);
+                    let mut inv = make_invoice(now, n, a);
+                    let mut repeat_of_approved = false;
+                    let mut key = n;
+                    if !asked_invoices.is_empty() && rng.chance(1, 4) {
+                        let back = 1 + rng.usize(asked_invoices.len().min(4));
+                        let (k0, i0, a0, ok0): (u64, Invoice, u64, bool) = asked_invoices[asked_invoices.len() - back].clone();
+                        key = k0;
+                        inv = i0;
+                        a = a0;
+                        repeat_of_approved = ok0;
+                        r.count(if ok0 { "layer2.invoice.repeat_of_approved" } else { "layer2.invoice.repeat_of_refused" });
+                    }
+                    let inv_copy = inv.clone();
                     let res = report::catch(|| world.node.add_invoice(inv));
+                    if let Ok(Ok(ok)) = &res {
+                        match asked_invoices.iter_mut().find(|x| x.0 == key) {
+                            Some(x) => x.3 = x.3 || *ok,
+                            None => asked_invoices.push((key, inv_copy, a, *ok)),
+                        }
+                    }
                     match res {
+                        Ok(Ok(true)) if repeat_of_approved => r.count("layer2.invoice.repeat_confirmed"),
                         Ok(Ok(true)) => {
                             r.count("layer2.invoice.accepted");
                             since_restart_pay += 1;
